@@ -21,6 +21,7 @@ mod c13;
 mod c14;
 mod c15;
 mod c16;
+mod c16r;
 mod c17;
 mod c18;
 mod c19;
@@ -52,6 +53,7 @@ fn main() {
         "c18-parse" => c18::parse(rest),
         "c19-run" => c19::run(rest),
         "c16-queue" => c16::queue(rest),
+        "c16-render" => c16r::render(),
         "c09-drive" => c09::drive(rest),
         "c10-drive" => c10::drive(rest),
         "c10-gen" => c10::vectors(rest),
